@@ -323,7 +323,7 @@ Definition stop_timer (s : st) : option st :=
   | TmArmed _ => Some (set_tc (set_tmr s TmIdle) false)       (* Stop() = true *)
   | TmFired => if tc s then Some (set_tc (set_tmr s TmIdle) false)   (* Stop() = false; drained *)
                else None
-  | TmIdle => if tc s then None else Some s
+  | TmIdle => if tc s then None else Some (set_tc (set_tmr s TmIdle) false)   (* Stop() = false; timerC = nil *)
   end.
 
 (* startTimer: stopTimer; NewTimer/Reset(maxWait - time.Since(batchStart)); timerC = timer.C.
